@@ -153,6 +153,13 @@ type clientState struct {
 // InstallHooks points the repository's hook functions at the scheduler.
 func InstallHooks(s *rt.Sched) {
 	verifhook.YieldFn = func(site string, keys ...interface{}) {
+		if site == "hub.fanout.done" {
+			// only interesting when the fan-out found a slow subscriber
+			if n, ok := keys[0].(int); !ok || n == 0 {
+				return
+			}
+			keys = nil
+		}
 		if site == "hub.delete" && len(keys) == 2 {
 			if lock, ok := keys[1].(bool); ok && !lock {
 				return // called with the hub lock held: never park
